@@ -320,6 +320,17 @@ class FlagSet:
         return f'FlagSet({self.flags!r})'
 
 
+class SymMapping:
+    """a dict given by its (key, value) pairs; keys pairwise distinct (precondition where it is built)"""
+    __slots__ = ('pairs',)
+
+    def __init__(self, pairs):
+        self.pairs = tuple(pairs)
+
+    def __repr__(self):
+        return f'SymMapping({list(self.pairs)!r})'
+
+
 class Opaque:
     """an atom the interpreter never looks into (message strings, commentary)"""
     __slots__ = ('tag',)
